@@ -5,6 +5,7 @@ from harness import core, gen, common
 
 ID = 'C15'
 LEAN_TARGETS = ['Props.C15']
+TIE_A = ['classify_translate_eq', 'classify_blade_mv_eq', 'classify_tests_eq']
 OBLIGATIONS = ['C15.translate_origin', 'C15.translate_fixes_einf', 'C15.translate_unit',
                'C15.direction_mv', 'C15.direction_is_classified', 'C15.direction_is_recovered', 'C15.flat_is_classified', 'C15.round_mv', 'C15.round_is_classified',
                'C15.translation_commutes_with_inner', 'C15.translation_commutes_with_outer', 'C15.translation_fixes_scalars',
